@@ -339,7 +339,8 @@ func VerifAbandon(rs *RelationService) {
 		rs.fs.tickerDone <- true
 	}
 	rs.fs.file.Close()
-	rs.wal.close()
+	// (a dying process does not run the log's close method: whatever that would still write out is lost)
+	rs.wal.reader.Close()
 	if s != nil {
 		s.Dead = true
 	}
